@@ -111,17 +111,19 @@ example : exFrame ≠ exFrame' ∧ saveVal exFrame (0 : Nat) ≠ saveVal exFrame
 
 /-! ### views -/
 
-/-- In the functional model a "view" (the result of any chain of selections / concatenations
-    `sel`) is just a value: it round-trips like every other well-formed frame, and what is written
-    is a function of that value alone — not of the frame it was cut from.  (That the real objects,
-    which share storage with their parent and have non-zero storage offsets, behave like values is
-    checked on the implementation.) -/
-theorem views_roundtrip (sel : Frame α → Frame α) (tf parent' : Frame α) (stats : σ)
-    (h : (sel tf).WF) (hsame : sel parent' = sel tf) :
-    ∃ v, saveVal (sel tf) stats = .ok v ∧ loadVal v = .ok (sel tf, stats) ∧
-      saveVal (sel parent') stats = .ok v := by
-  obtain ⟨v, h1, h2⟩ := loadVal_saveVal (sel tf) stats h
-  exact ⟨v, h1, h2, by rw [hsame]; exact h1⟩
+/-- In the functional model a "view" — the result `sel tf` of ANY chain of selections and
+    concatenations `sel` — is just a value: it is serialised to the same abstract file value as its
+    canonical copy (any frame equal to it as a value, however that copy is laid out in memory),
+    and loading that file returns the copy.  Nothing of the frame it was cut from enters the file.
+    (That the real objects, which share storage with their parent and have non-zero storage
+    offsets, behave like values is checked on the implementation; that the library's selections
+    produce canonically laid-out `values`/`offset` is C05/C06.) -/
+theorem views_roundtrip (sel : Frame α → Frame α) (tf copy : Frame α) (stats : σ)
+    (hcopy : copy = sel tf) (h : (sel tf).WF) :
+    saveVal (sel tf) stats = saveVal copy stats ∧
+    ∃ v, saveVal (sel tf) stats = .ok v ∧ loadVal v = .ok (copy, stats) := by
+  subst hcopy
+  exact ⟨rfl, loadVal_saveVal (sel tf) stats h⟩
 
 /-- a nested container cut out of a larger one by the library's own row selection (`m[1:3]`:
     offsets re-based, values sliced) survives `to_dict` → constructor unchanged. -/
@@ -129,6 +131,21 @@ example :
     let parent : MNT Int := ⟨4, 1, [1, 2, 3, 4, 5, 6], [0, 1, 3, 3, 6]⟩
     (parent.select (.slice (some 1) (some 3) none) 0).map (fun m => Nested.ofDict (Nested.toDict ⟨"int64", m⟩))
       = some (.ok ⟨"int64", ⟨2, 1, [2, 3], [0, 2, 2]⟩⟩) := by decide
+
+/-- frame-level instance: `sel` = "rows 1:3 of every nested feature" through the library's own
+    offset arithmetic; the selected frame is well-formed, differs from its parent and round-trips. -/
+def exSel (tf : Frame Int) : Frame Int :=
+  { tf with feats := tf.feats.map fun sf =>
+      match sf.2 with
+      | .nested n => (sf.1, .nested ⟨n.dtype, (n.m.select (.slice (some 1) (some 3) none) 0).getD n.m⟩)
+      | f => (sf.1, f) }
+
+def exParent : Frame Int :=
+  { feats := [(.multicategorical, .nested ⟨"int64", ⟨4, 1, [1, 2, 3, 4, 5, 6], [0, 1, 3, 3, 6]⟩⟩)]
+    colNames := [(.multicategorical, ["m"])], y := none }
+
+example : (exSel exParent).WF ∧ exSel exParent ≠ exParent ∧
+    (saveVal (exSel exParent) (0 : Nat)).bind loadVal = .ok (exSel exParent, 0) := by decide
 
 /-! ### the cache protocol -/
 
